@@ -86,6 +86,10 @@ def _gen_scope_init(rng):
         if rng.random() < 0.35:
             text += rng.choice([NB_DIFF_LINE + "\n", "\n" + NB_DIFF_LINE + "\n\n" + NB_MERGE_LINE + "\n",
                                 NB_MERGE_LINE + "\n", "*.ipynb diff=jupyternotebook merge=jupyternotebook\n"])
+        if rng.random() < 0.12:
+            # a commented-out nbdime rule is not a rule
+            text += rng.choice(["# *.ipynb\tdiff=jupyternotebook\n", "#*.ipynb merge=jupyternotebook\n",
+                                "# *.ipynb diff=jupyternotebook merge=jupyternotebook\n"])
         if rng.random() < 0.3:
             text = text.rstrip("\n")  # no trailing newline
         init["attrs"] = text
@@ -422,8 +426,8 @@ class Runner:
                                  "%s: lines added to the attributes file: %r" % (where, added))
                     return False
                 for marker in ("diff=jupyternotebook", "merge=jupyternotebook"):
-                    cnt_b = sum(1 for l in b.splitlines() if marker in l)
-                    cnt_n = sum(1 for l in n.splitlines() if marker in l)
+                    cnt_b = sum(1 for l in b.splitlines() if marker in l and not l.lstrip().startswith("#"))
+                    cnt_n = sum(1 for l in n.splitlines() if marker in l and not l.lstrip().startswith("#"))
                     if cnt_n > max(cnt_b, 1):
                         self.violate("S2", dict(sig, what="attrs_duplicate"),
                                      "%s: %d lines with %s after enable (%d before)" % (where, cnt_n, marker, cnt_b))
@@ -521,6 +525,25 @@ class Runner:
                     self.violate("S5", dict(sig, what=what),
                                  "after a successful enable git does not route notebooks to nbdime's %s; check-attr: %r" % (what, after["check_attr"]))
                     return
+        have = dict(after[target]) if (in_repo or target == "global") else None
+        if have is not None:
+            wanted = []
+            if comp in ("difftool", "config-git"):
+                wanted.append("difftool.nbdime.cmd")
+            if comp in ("mergetool", "config-git"):
+                wanted.append("mergetool.nbdime.cmd")
+            if comp in ("diffdriver", "config-git"):
+                wanted.append("diff.jupyternotebook.command")
+            if comp in ("mergedriver", "config-git"):
+                wanted.append("merge.jupyternotebook.driver")
+            missing = [k for k in wanted if k not in have]
+            if op.get("set_default"):
+                dk = {"difftool": "diff.guitool", "mergetool": "merge.tool"}.get(comp)
+                if dk and have.get(dk) != "nbdime":
+                    missing.append(dk + "=nbdime")
+            if missing:
+                self.violate("S6", dict(sig, what=missing[0]), "after a successful enable the %s scope lacks nbdime's own entries %r" % (target, missing))
+                return
         op2 = dict(op, fault=None)
         outcome2, _, _ = self.run_command(op2, after, lambda n, argv: None)
         again = self.observe(probes=True)
